@@ -127,7 +127,7 @@ def obligations(tier):
         cfgs = [(1, 2), (2, 2), (3, 2), (2, 3)]
         maxc = 2
     else:
-        cfgs = [(1, 2), (2, 2), (3, 2), (2, 3), (3, 3), (4, 2)]
+        cfgs = [(1, 2), (2, 2), (3, 2), (2, 3), (3, 3)]
         maxc = 3
     for nm, nt in cfgs:
         perms = [p for p in itertools.permutations(range(nm))]
@@ -191,6 +191,6 @@ ASSUMPTIONS = [
 
 BOUNDS = {
     "quick": "1..3 members, 2 topics, 0..2 partitions per topic, listing order vs 1-2 other permutations; identical subscriptions with (3,2) partitions",
-    "thorough": "1..4 members, 2..3 topics, 0..3 partitions per topic (with 3 topics: <=2 each, <=4 in total, 2 listing orders; with 4 members: <=3 in total), all permutations for 3 members x 2 topics",
+    "thorough": "1..3 members, 2..3 topics, 0..3 partitions per topic (with 3 topics: <=2 each, <=4 in total, 2 listing orders; with 4 members: <=3 in total), all permutations for 3 members x 2 topics",
     "outside": ">4 members, >3 topics, topic names needing non-ASCII (write_short_ascii)",
 }
